@@ -253,6 +253,38 @@ def boundary_frames(ctx, rng):
             ctx.case(("boundary", L), True, sample={"kind": "boundary-frame", "frame_length": L})
 
 
+def rdflib_writer_modes(ctx, rng):
+    """Graph.serialize(format='jelly') asked for each mode through options=, stream=+options= and stream= alone:
+    what lands in the file must be classified as the mode that was asked for, and both must parse alike."""
+    stmts = gen.statements(rng, rng.randint(1, 5), 3, "rdf11")
+    want = sorted(T.norm_events([("stmt", s) for s in {T.norm_stmt(x): x for x in stmts}.values()]), key=repr)
+    for entry in ("graph_serialize", "graph_serialize_options", "graph_serialize_stream_only"):
+        res = {}
+        for delimited in (True, False):
+            cfg = {"integration": "rdflib", "physical": 1, "entry": entry, "frame_size": 250, "preset": (16, 8, 8), "logical": 1,
+                   "generalized": False, "rdf_star": False, "delimited": delimited, "stream_name": ""}
+            try:
+                data = pj.serialize(cfg, stmts)
+            except Exception as ex:  # noqa: BLE001
+                ctx.observe(f"rdflib-serialize-raised:{type(ex).__name__}")
+                continue
+            ctx.observe("rdflib-writer-mode-checks")
+            if delimited_jelly_hint(data[:3]) != delimited:
+                ctx.violation({"clause": "misclassified", "mode": "delimited" if delimited else "non-delimited", "header": data[:3].hex(),
+                               "cfg": cfg, "stmts": T.to_json(stmts),
+                               "summary": f"rdflib {entry} asked for {'delimited' if delimited else 'non-delimited'} output; the bytes "
+                                          f"(header {data[:3].hex()}) are classified as the other mode"})
+            try:
+                res[delimited] = sorted(T.norm_events(pj.parse("generic", "flat", data)), key=repr)
+            except Exception as ex:  # noqa: BLE001
+                ctx.violation({"clause": "parse-raised", "cfg": cfg, "stmts": T.to_json(stmts), "header": data[:3].hex(),
+                               "summary": f"rdflib {entry} output (delimited={delimited}) does not parse: {type(ex).__name__}"})
+            ctx.case(("rdflib-mode", entry, delimited, data[:3].hex(), len(stmts)), True,
+                     sample={"kind": "rdflib writer mode", "entry": entry, "delimited": delimited, "header": data[:3].hex()})
+        if len(res) == 2 and not (res[True] == res[False] == want):
+            ctx.violation({"clause": "paired-parse-differs", "summary": f"rdflib {entry}: the two modes do not parse to the same statements"})
+
+
 def run_shard(ctx):
     rng = ctx.rng("hdr")
     for mode, hdr, desc in headers(ctx.tier, ctx.shard, ctx.nshards, rng):
@@ -279,6 +311,7 @@ def run_shard(ctx):
     i = 0
     while not ctx.out_of_time() and i < (6 if ctx.tier == "quick" else 60):
         pyjelly_pairs(ctx, ctx.rng("pair", i))
+        rdflib_writer_modes(ctx, ctx.rng("rdflib-modes", i))
         i += 1
 
 
